@@ -18,7 +18,7 @@ EXAMPLES = "/repo/examples"
 def tasks(tier, seed):
     hs = gen.hashseeds(tier, seed)
     n = 25 if tier == "quick" else 200
-    ts = [{"kind": "type", "type": t, "lo": seed * 100000, "count": n} for t in TYPES]
+    ts = [{"kind": "type", "type": t, "lo": seed * 100000, "count": n * 3 if t == "nfa2dfa" else n} for t in TYPES]
     ts.append({"kind": "examples"})
     return gen.spread(ts, hs)
 
@@ -59,6 +59,10 @@ def one(typ, seed):
 
     if typ == "nfa2dfa":
         N = U.random_nfa(rng, rng.randint(1, 4), rng.choice(["a", "ab", "01"]), eps=rng.choice(["ε", "_"]), prefix="q")
+        if rng.random() < 0.5:
+            # state names that are substrings / prefixes of each other (generated names beyond q9 look like this)
+            pool = rng.choice([["q1", "q10", "q11", "q"], ["q", "q1", "qq", "q1q"], ["s2", "s", "s22", "2s"], ["x", "xy", "y", "yx"]])
+            N = U.rename_fa(N, {q: pool[i] for i, q in enumerate(sorted(N.Q))})
         t = na.print_nfa(N)
         ref["nfa"] = ab.nfa(N)
         f = chk.write(tag + ".nfa", t)
